@@ -2181,6 +2181,15 @@ static program_t *epilog ()
               *func = *FUNCTION_RENTRY (which);
               FUNCTION_FLAGS (i) = FUNCTION_FLAGS (which) | NAME_ALIAS;
             }
+          else
+            {
+              /* The alias keeps its own inherit link, but apply_low() and
+               * function_exists() read the flags of this slot when the function
+               * is found through this inherit; it must carry the modifiers
+               * (static, private, protected, true varargs ...) of the name.
+               */
+              FUNCTION_FLAGS (i) |= FUNCTION_FLAGS (which) & (NAME_TYPE_MOD | NAME_TRUE_VARARGS);
+            }
         }
     }
   generate_final_program (1);
